@@ -35,7 +35,7 @@ def job(p):
         shutil.rmtree(wt, ignore_errors=True)
 
 bad = 0
-with ThreadPoolExecutor(max_workers=12) as ex:
+with ThreadPoolExecutor(max_workers=int(os.environ.get("MX_JOBS", "8"))) as ex:
     for p, res, err in ex.map(job, patches):
         name = os.path.relpath(os.path.dirname(p), os.path.commonpath(roots) if len(roots) > 1 else roots[0])
         if res is None:
